@@ -1,4 +1,5 @@
 from shexer.model.shape import STARTING_CHAR_FOR_SHAPE_NAME
+import re
 
 XSD_NAMESPACE = "http://www.w3.org/2001/XMLSchema#"
 XSD_PREFIX = "xsd"
@@ -18,9 +19,16 @@ STRING_TYPE = "http://www.w3.org/2001/XMLSchema#string"
 FLOAT_TYPE = "http://www.w3.org/2001/XMLSchema#float"
 INTEGER_TYPE = "http://www.w3.org/2001/XMLSchema#integer"
 
+_SCHEME = re.compile("[A-Za-z][A-Za-z0-9+.-]*:")
+
 
 def _add_prefix(unprefixed_elem, prefix):
     return prefix + ":" + unprefixed_elem
+
+
+def starts_with_scheme(a_uri):
+    """True for an absolute IRI (RFC 3986 scheme followed by ':'), False for a relative reference"""
+    return _SCHEME.match(a_uri) is not None
 
 
 def remove_corners(a_uri, raise_error_if_no_corners=True):
@@ -82,7 +90,7 @@ def decide_literal_type(a_literal, base_namespace=None):
         return a_literal[a_literal.find("\"^^")+4:-1]
     elif a_literal.strip().endswith(">"):
         candidate_type = a_literal[a_literal.find("\"^^") + 4:-1]  # plain uri, no corners
-        if base_namespace is not None and not candidate_type.startswith("http"):
+        if base_namespace is not None and not starts_with_scheme(candidate_type):
             return base_namespace + candidate_type
         return candidate_type
     else:
